@@ -21,6 +21,7 @@ CHECKS['C05'] = hands_check.check_C05
 CHECKS['C09'] = checks.check_C09
 CHECKS['C15'] = checks.check_C15
 CHECKS['C12'] = checks.check_C12
+CHECKS['C16'] = checks.check_C16
 
 
 def replay(pid: str, path: str) -> int:
